@@ -21,6 +21,7 @@ import (
 	"path/filepath"
 	"strconv"
 	"strings"
+	"time"
 
 	"github.com/nelhage/taktician/playtak"
 	"github.com/nelhage/taktician/ptn"
@@ -33,6 +34,15 @@ func init() {
 }
 
 func genBotParent(c *Ctx) {
+	if c.Shard == 0 { // sweep what killed runs left behind
+		if old, _ := filepath.Glob(filepath.Join(os.TempDir(), "c07-*")); len(old) > 0 {
+			for _, d := range old {
+				if st, err := os.Stat(d); err == nil && time.Since(st.ModTime()) > 2*time.Hour {
+					os.RemoveAll(d)
+				}
+			}
+		}
+	}
 	dir, err := os.MkdirTemp("", "c07-")
 	if err != nil {
 		panic(err)
